@@ -609,6 +609,10 @@ class Interp:
         from fim.slivers.network_link import LinkType
         pool = [c for c in s.ids(CLS_CP) if s.typ(c) != "ServicePort"]
         refs = [pool[k % len(pool)] for k in op.get("ifs", [])] if pool else []
+        subs = [c for c in pool if s.is_sub(c)]
+        if op.get("sub_end") and subs and refs:
+            # one end is a sub-interface (a rarely used but legal end of a plain link)
+            refs[0] = subs[op["ifs"][0] % len(subs)]
         refs = list(dict.fromkeys(refs))
         # a link never joins an interface with its own parent / sub-interface (not a meaningful topology)
         keep = []
@@ -945,7 +949,8 @@ def op_ns_add_interface(names=_name_fresh, ids=_id_spec):
 
 def op_add_link(names=_name_fresh, ids=_id_spec):
     return st.fixed_dictionaries({"op": st.just("add_link"), "name": names, "ltype": st.sampled_from(LINK_TYPES),
-                                  "ifs": st.lists(_k, min_size=2, max_size=3), "id": ids})
+                                  "ifs": st.lists(_k, min_size=2, max_size=3), "id": ids,
+                                  "sub_end": st.sampled_from([False, False, True])})
 
 
 op_connect = st.fixed_dictionaries({"op": st.just("connect"), "svc": _k, "if": _k, "h": _h})
